@@ -19,6 +19,71 @@ CHECKS = {
                 "API (owned by C03/C16/C01). Float rounding not modelled.",
         "design_ref": "DESIGN.md section 3 (C20), 2.4",
     },
+    "C12": {
+        "text": "Theorems (Props/C12.v) prove for all rational inputs that the model's z*|z| of a cell is "
+                "(c-e)|c-e| / (e(1-r/t)(1-k/t)), e = r k/t, from that cell's own count and row/column/table "
+                "bases (derived by field from the code's variance r k (t-r)(t-k)/t^3), with the sign of c-e; "
+                "that in every block of a non-defective table each cell uses its own bases; that for every "
+                "2x2 table with non-zero margins z^2 of all four cells is Pearson's chi-square "
+                "N(ad-bc)^2/(R1 R2 K1 K2); that a defective table (empty axis or all 2x2 minors zero, proved "
+                "equivalent to 'every row is a multiple of one vector') is NaN in every cell of every block; "
+                "the all(t==r)/all(t==k) guard and the zero-variance boundary; and, for every CDF-shaped Phi "
+                "(section variable), that p = 2(1-Phi|z|) is in [0,1], even, antitone in |z|, the sum of both "
+                "tails and a function of z^2. The model is tied to _Zscores/_Pvalues by running it on the "
+                "implementation's own public counts and weighted bases (four blocks, all dimension-type "
+                "pairs, weighted/unweighted, subtotals, degenerate tables, order/hide transforms) and "
+                "comparing zscores, pvals (scipy on the model's exact z^2) and residual_test_stats; "
+                "chi-square and defective=>NaN are also checked on the implementation alone.",
+        "note": "Trusted: Coq kernel + vm_compute; hand-written Model/Zscore.v tied by correspondence only "
+                "(sampled inputs, 1e-9 tolerance); the rank test is modelled exactly (all 2x2 minors zero) and "
+                "numpy's SVD-with-tolerance matrix_rank is ASSUMED to agree on the generated tables (exactly "
+                "rank-deficient small dyadic tables or a minor >= 1e-3 relative; others skipped and counted); "
+                "scipy's norm.cdf is assumed CDF-shaped (p-value theorems are for any such function, over "
+                "Coq's axiomatised reals: stdlib axioms sig_forall_dec, functional_extensionality_dep appear "
+                "in Print Assumptions of those five theorems only); NaN vs +-inf is not distinguished in cells "
+                "whose exact variance is 0; inputs (counts, bases) are the implementation's public values "
+                "(owned by C01/C02/C04). Removing the all(t==r) guard is an equivalent mutant on dyadic inputs "
+                "(0/0 either way) and is not detected.",
+        "design_ref": "DESIGN.md section 3 (C12), 2.4",
+    },
+    "C14": {
+        "text": "Theorems (Props/C14.v, closed under the global context) prove for every list of weighted "
+                "respondents and every assignment of numeric values to categories (partial, repeated, "
+                "negative, unsorted) that the model's scale mean of the tallied count vector is the weighted "
+                "mean of the individual respondents' values (any positive base), stddev^2 their population "
+                "variance, stderr^2 that variance over the margin (strand: over the valued weighted count), "
+                "NaN when no respondent has a value, None iff no category has a value, NaN for difference "
+                "vectors; for integer counts and ANY tie order of argsort the cumulative-count median rule "
+                "returns a median of the respondents' values provided no empty category follows an exact "
+                "50% point (C14_median_eq), and is refuted without that proviso (C14_median_refuted, "
+                "counts 2,0,2 on 1,2,3); strand/margin medians by expansion are medians; the strand's "
+                "NaN-instead-of-None median is exhibited (C14_strand_median_empty_refuted). The model is "
+                "tied to the code by running both on the implementation's own reported counts, weighted "
+                "bases and margins for every base and subtotal vector of generated slices and strands, plus "
+                "a respondent-level Python oracle and a hide/order/prune relational check of the margins.",
+        "note": "Trusted: Coq kernel + vm_compute; hand-written Model/Scale.v tied by correspondence only "
+                "(sampled inputs, 1e-9 tolerance); counts/bases/margins are taken from the implementation's "
+                "public API (owned by C01/C02/C04); square roots compared through squares; the order of equal "
+                "values in numpy's argsort is an input validated by valid_order. Three open findings "
+                "(known_findings.d/C14-*.json): median with an empty category after the 50% point, strand "
+                "median NaN vs None, margins computed from the hidden-filtered arrays. Infinite/negative "
+                "counts and float rounding not modelled.",
+        "design_ref": "DESIGN.md section 3 (C14), 2.4, section 4 #2 #8 #10",
+    },
+}
+
+CHECKS["C15"] = {
+    "text": "Theorems (Props/C15.v, closed under the global context): for every sums matrix, every list of row/column "
+            "subtotals and every cell of each of the four blocks, row/column/total share is the (signed) sum of the "
+            "cell divided by the nansum over BASE rows/columns of its column/row/table (inserted rows/columns by their "
+            "own total over base columns/rows); base-cell shares of a row/column add up to 1 (NaN cells skipped) "
+            "whenever the total is a non-zero number; the column (row, total) share of a subtotal without subtrahends "
+            "equals the sum of its addends' shares; strand twin. Model tied to the code by running both on the "
+            "implementation's own public sums, plus an independent exact-fraction oracle of the property text.",
+    "note": "Trusted: Coq kernel + vm_compute; hand-written Model/Share.v, Model/Subtotals.v tied by correspondence only; "
+            "sums and subtotal offsets are read from the implementation (owned by C01/C04); sign of an infinity from a "
+            "zero total is not compared (signed zero not modelled).",
+    "design_ref": "DESIGN.md section 3 (C15)",
 }
 
 NOT_APPLICABLE = {}
